@@ -41,6 +41,22 @@ func New(numWorkers ...int) *Worker {
 // It returns a nonce that appended to data results in a PoW score of at least targetScore.
 // The computation can be canceled anytime using ctx.
 func (w *Worker) Mine(ctx context.Context, data []byte, targetScore float64) (uint64, error) {
+	// compute the minimum numbers of trailing zeros required to get a PoW score ≥ targetScore;
+	// this uses the same expression as Score, so that rounding cannot make the two disagree,
+	// and it yields zero for every target that any nonce satisfies
+	targetZeros := uint(consts.HashTrinarySize + 1) // unattainable, unless a sufficient number is found
+	for z := 0; z <= consts.HashTrinarySize; z++ {
+		if math.Pow(consts.TrinaryRadix, float64(z))/float64(len(data)+nonceBytes) >= targetScore {
+			targetZeros = uint(z)
+			break
+		}
+	}
+	if targetZeros > consts.HashTrinarySize {
+		// no hash has a score that high: the search cannot succeed, it can only be canceled
+		<-ctx.Done()
+		return 0, ErrCancelled
+	}
+
 	var (
 		done    uint32
 		counter uint64
@@ -65,17 +81,6 @@ func (w *Worker) Mine(ctx context.Context, data []byte, targetScore float64) (ui
 			return
 		}
 	}()
-
-	// compute the minimum numbers of trailing zeros required to get a PoW score ≥ targetScore;
-	// this uses the same expression as Score, so that rounding cannot make the two disagree,
-	// and it yields zero for every target that any nonce satisfies
-	targetZeros := uint(consts.HashTrinarySize + 1) // unattainable, unless a sufficient number is found
-	for z := 0; z <= consts.HashTrinarySize; z++ {
-		if math.Pow(consts.TrinaryRadix, float64(z))/float64(len(data)+nonceBytes) >= targetScore {
-			targetZeros = uint(z)
-			break
-		}
-	}
 
 	workerWidth := math.MaxUint64 / uint64(w.numWorkers)
 	for i := 0; i < w.numWorkers; i++ {
